@@ -29,8 +29,10 @@
      STMT   ::= (let X same EXPR) | (let X (next BL COL) EXPR) | (letfn F P (PS ...) BODY) | (expr EXPR)
      EXPR   ::= (t TERM) | (op ATOM ((COL ATOM) ...) BRK O EXPR)          BRK ::= same | (next BL COL)
      ATOM   ::= (a N) | (s N) | (lam (PS ...) BODY BRK)
-     TERM   ::= (app ATOM (COL ATOM) ...) | (if1 SX SX SX) | (if SX BL BLOCK IFREST) | (match SX BL ARM ...)
-     IFREST ::= (else BL COL BODY) | (elif BL COL SX BL BLOCK IFREST)
+     TERM   ::= (app ATOM (COL ATOM) ...) | (if1 SX SX SX) | (if1 SX SX) | (if SX BL BLOCK IFREST)
+              | (match SX BL ARM ...) | (smatch SX BL SARM ...)
+     IFREST ::= end | (else BL COL BODY) | (elif BL COL SX BL BLOCK IFREST)
+     SARM   ::= (sarm COL (lit N) BODY BL) ... closed by (sarm COL (var V) BODY BL) or (sarm COL default BODY BL)
      BODY   ::= (inline BLOCK) | (next BL BLOCK)
      BLOCK  ::= (block COL STMT (BL COL STMT) ...)
      ARM    ::= (arm COL PAT BODY BL)                      PAT ::= (case N) | (case N V) | default
@@ -139,11 +141,14 @@ and atoms_of = function
   | _ -> raise (Parse_error "atoms")
 and term_of = function
   | L (A "app" :: a :: l) -> LApp (atom_of a, atoms_of l)
-  | L [A "if1"; c; t; e] -> LIf1 (sx_of c, sx_of t, sx_of e)
+  | L [A "if1"; c; t; e] -> LIf1 (sx_of c, sx_of t, Some (sx_of e))
+  | L [A "if1"; c; t] -> LIf1 (sx_of c, sx_of t, None)
+  | L (A "smatch" :: tg :: bl :: arms) -> LSMatch (sx_of tg, nat_of bl, sarms_of arms)
   | L [A "if"; c; bl; t; r] -> LIf (sx_of c, nat_of bl, block_of t, ifrest_of r)
   | L (A "match" :: tg :: bl :: arms) -> LMatch (sx_of tg, nat_of bl, arms_of arms)
   | _ -> raise (Parse_error "term")
 and ifrest_of = function
+  | A "end" -> IEnd
   | L [A "else"; bl; c; b] -> IElse (nat_of bl, nat_of c, body_of b)
   | L [A "elif"; bl; c; cd; b1; t; r] -> IElif (nat_of bl, nat_of c, sx_of cd, nat_of b1, block_of t, ifrest_of r)
   | _ -> raise (Parse_error "ifrest")
@@ -171,6 +176,11 @@ and arms_of = function
   | [L [A "arm"; c; p; b; _]] -> MLast (nat_of c, pat_of p, body_of b)
   | L [A "arm"; c; p; b; bl] :: r -> MCons (nat_of c, pat_of p, body_of b, nat_of bl, arms_of r)
   | _ -> raise (Parse_error "arms")
+and sarms_of = function
+  | [L [A "sarm"; c; A "default"; b; _]] -> SLast (nat_of c, None, body_of b)
+  | [L [A "sarm"; c; L [A "var"; v]; b; _]] -> SLast (nat_of c, Some (nat_of v), body_of b)
+  | L [A "sarm"; c; L [A "lit"; s]; b; bl] :: r -> SCons (nat_of c, nat_of s, body_of b, nat_of bl, sarms_of r)
+  | _ -> raise (Parse_error "sarms")
 let prog_of = function
   | L (A "prog" :: inner :: roots) ->
     (nat_of inner, List.map (function
